@@ -256,10 +256,26 @@ func runCorr(c *Ctx, seeds []*Seed) {
 	for i, j := range jobs {
 		cases[i] = Case{Entry: j.t.entry, Data: j.data, Seed: "corr", Mut: j.mut, Fam: j.t.fam}
 	}
-	res := RunCases(runCfg{Workers: c.Work, Timeout: watchdog, ASLimit: asLimit}, cases)
+	// a hanging decoder must not cost one watchdog period per header case: after c08TotalCap watchdog
+	// kills the entry point is left out of the rest of the correspondence run (and said so)
+	cb := newBrake()
+	skip := func(cs *Case) string {
+		cb.mu.Lock()
+		defer cb.mu.Unlock()
+		if cb.total[cs.Entry] >= c08TotalCap {
+			cb.skipped[cs.Entry]++
+			cb.blocked[cs.Entry] = fmt.Sprintf("%d watchdog timeouts", cb.total[cs.Entry])
+			return "blocked"
+		}
+		return ""
+	}
+	res := RunCases(runCfg{Workers: c.Work, Timeout: watchdog, ASLimit: asLimit, Skip: skip, Note: cb.note}, cases)
+	if bs, n := cb.summary(); n > 0 {
+		c.R.Note("correspondence brake: %s", bs)
+	}
 	ParallelFor(len(jobs), c.Work, func(i int) {
 		j := jobs[i]
-		if res[i].Status == "timeout" {
+		if res[i].Status == "timeout" || res[i].Status == "skipped" {
 			return
 		}
 		hx := hexs(j.data)
